@@ -237,9 +237,9 @@ def r3_echo_taint(ctx):
                 if m == 'Segment' and c.args:
                     arg, kind = c.args[0], 'Segment(text)'
                 elif m == 'append' and c.args and r and _sink_segment(f, r) != r:
-                    arg, kind = c.args[0], '%s.append' % _sink_segment(f, r)
+                    arg, kind = c.args[0], '%s' % _sink_segment(f, r)     # (which call stores it - append or set(pos) - is not part of the finding)
                 elif m == 'set' and len(c.args) == 2 and r and _sink_segment(f, r) != r:
-                    arg, kind = c.args[1], '%s.set(%s)' % (_sink_segment(f, r), norm(c.args[0]))
+                    arg, kind = c.args[1], '%s' % _sink_segment(f, r)
                 if arg is None:
                     continue
                 src = _tainted(arg, tainted, srcn)
